@@ -403,3 +403,13 @@ def describe(c):
             "path": _text(c[1]), "env": {_text(k): _text(v) for k, v in c[2]},
             "roller_pattern": _text(c[3]) if c[0] % 10 == 2 else None,
             "roller_count": 1 + len(c[4]) if c[0] % 10 == 2 else None, "rolls": c[5] if c[0] % 10 == 2 else None}
+
+
+def extra_checks(ctx, cases_, impl_lines, model_lines_):
+    """"the fixed-window roller creates its files at the expanded location" - at every roll, also when somebody removed
+    the archive directory in between or the variables changed (C07's histories with $ENV patterns, environment changes
+    and removed directories)"""
+    from gen import xcheck
+    return xcheck.borrow(ctx, "C07", "archives are created at the expanded location at every roll",
+                         lambda c: any(isinstance(o, list) and o and o[0] in (2, 3) for o in c[8]) or "$ENV" in str(c[4]),
+                         n=250, seed_salt=37)
